@@ -325,6 +325,18 @@ uudecode_bidder_bid(struct archive_read_filter_bidder *self,
 			return (0);
 		/* Get a length of decoded bytes. */
 		l = UUDECODE(*b++); len--;
+		if (l == 0 && len == nl) {
+			/* A zero-length line at once: an encoded empty
+			 * file, if the next line is "end". */
+			b += nl;
+			len = bid_get_line(filter, &b, &avail, &ravail,
+			    &nl, &nbytes_read);
+			if (len - nl == 3 && memcmp(b, "end", 3) == 0)
+				return (firstline+30);
+			if (len != 0 && uuchar[*b])
+				return (firstline+30);
+			return (0);
+		}
 		if (l > 45)
 			/* Normally, maximum length is 45(character 'M'). */
 			return (0);
@@ -347,6 +359,9 @@ uudecode_bidder_bid(struct archive_read_filter_bidder *self,
 			return (firstline+30);
 	} else if (l == 13) {
 		/* "begin-base64 " */
+		if (len - nl == 4 && memcmp(b, "====", 4) == 0)
+			/* The terminator at once: an encoded empty file. */
+			return (firstline+40);
 		while (len-nl > 0) {
 			if (!base64[*b++])
 				return (0);
